@@ -42,7 +42,10 @@ type Spec struct {
 	SlowCbUs     int        `json:"slow_cb_us"`    // packet callbacks take this long (a slow handler keeps the delivering goroutine busy)
 	Procs        int        `json:"procs"`         // GOMAXPROCS
 	WriteTimeout int        `json:"write_timeout_ms"`
-	ServerKind   string     `json:"server_kind,omitempty"` // target client: "real" | "mute" | "stall"
+	ServerKind   string     `json:"server_kind,omitempty"` // target client: "real" | "mute" | "stall" | "script"
+	BurstStep    int        `json:"burst_step,omitempty"`  // script server: the burst goes out with the answer to the request of this number
+	Burst        []string   `json:"burst,omitempty"`       // script server: req-options | req-setparam | req-getparam | frame | frame-bad-channel | response-stray | garbage
+	BurstFirst   bool       `json:"burst_first,omitempty"` // the burst precedes the answer in the write
 	Seed         uint64     `json:"seed"`
 }
 
@@ -63,6 +66,7 @@ type Outcome struct {
 	FdFinal    []string       `json:"fd_final"`              // descriptors that were not there before the scenario
 	StreamLate []string       `json:"stream_late,omitempty"` // target stream: reader sessions not closed in time
 	StreamLeft []string       `json:"stream_left,omitempty"` // target stream: multicast listener goroutines left after ServerStream.Close
+	PeerFlow   []string       `json:"peer_flow,omitempty"`   // a reader that did not get packets after a redundant PLAY
 	Panic      string         `json:"panic,omitempty"`
 	SetupErr   string         `json:"setup_err,omitempty"` // the scenario could not be set up (not a verdict)
 	Reached    int            `json:"reached"`             // last protocol step peer 0 completed before the Close
